@@ -55,6 +55,24 @@ def leavesEmptyBlock (c : Cfg) (p : Proc) (op : Op) (t : Topic) : Bool :=
   | some i, some i' => decide (emptyBlocks i' t > emptyBlocks i t)
   | _, _ => false
 
+/-- a batch whose planning rotated the writer's block fails while writing: the rollback restores
+the offset but neither the block switch nor the seals of the planning phase -/
+def rotatedThenFailed (c : Cfg) (p : Proc) (op : Op) (t : Topic) : Bool :=
+  match p.inst, (step c p op) with
+  | some i, (p', .err .other) =>
+    match i.writers.get? t, p'.inst with
+    | some w, some i' =>
+      (match i'.writers.get? t with
+       | some w' => w'.blk.id != w.blk.id
+       | none => false)
+    | none, some i' =>
+      -- the topic's first block was created by this very operation
+      (match i'.writers.get? t with
+       | some w' => decide ((i'.reader t).chain.length > (i.reader t).chain.length) && w'.off == 0
+       | none => false)
+    | _, _ => false
+  | _, _ => false
+
 def fires (c : Cfg) (p : Proc) (op : Op) : List String :=
   match op with
   | .open_ _ => firesOpen c p 0
@@ -64,6 +82,14 @@ def fires (c : Cfg) (p : Proc) (op : Op) : List String :=
   | .batch t ps =>
     (if ps.length ≤ c.cap ∧ (ps.map fun x => c.metaSz + x.len).sum ≤ c.maxBatchBytes ∧ !t.long ∧
         ps.any (fun x => decide (c.metaSz + x.len > c.maxAlloc)) then ["sealThenAllocFail"] else []) ++
+    (if leavesEmptyBlock c p op t then ["emptyBlockAllocated"] else [])
+  | .appendF t pay _ =>
+    (if c.metaSz + pay.len > c.maxAlloc then ["sealThenAllocFail"] else []) ++
+    (if leavesEmptyBlock c p op t then ["emptyBlockAllocated"] else [])
+  | .batchF t ps _ =>
+    (if ps.length ≤ c.cap ∧ (ps.map fun x => c.metaSz + x.len).sum ≤ c.maxBatchBytes ∧ !t.long ∧
+        ps.any (fun x => decide (c.metaSz + x.len > c.maxAlloc)) then ["sealThenAllocFail"] else []) ++
+    (if rotatedThenFailed c p op t then ["rollbackKeepsNewBlock"] else []) ++
     (if leavesEmptyBlock c p op t then ["emptyBlockAllocated"] else [])
   | _ => []
 
